@@ -479,12 +479,24 @@ func ftClient(e *el.Event, s *ftShared, c int) {
 		simrt.Yield("ft:op")
 		ftCall(s, o)
 		if o.write {
-			e.FormattedAs(o.format, []byte(fmt.Sprintf("v%d", o.val)))
+			switch o.val {
+			case -2: // a nil slice is a value like any other: the entry exists afterwards
+				e.FormattedAs(o.format, nil)
+			case -3:
+				e.FormattedAs(o.format, []byte{})
+			default:
+				e.FormattedAs(o.format, []byte(fmt.Sprintf("v%d", o.val)))
+			}
 			ftRet(s, o, 0)
 		} else {
 			b, ok := e.Format(o.format)
 			v := -1
-			if ok {
+			switch {
+			case ok && b == nil:
+				v = -2
+			case ok && len(b) == 0:
+				v = -3
+			case ok:
 				fmt.Sscanf(string(b), "v%d", &v)
 			}
 			ftRet(s, o, v)
@@ -523,6 +535,12 @@ func runFormatTable(rc *RunCtx) {
 			if o.write {
 				valID++
 				o.val = valID
+				switch tp.Choose(8, "special-value") {
+				case 0:
+					o.val = -2 // nil
+				case 1:
+					o.val = -3 // empty, not nil
+				}
 			}
 			ops = append(ops, o)
 			desc = append(desc, fmt.Sprintf("c%d:%v(%s,%d)", c, map[bool]string{true: "FormattedAs", false: "Format"}[o.write], o.format, o.val))
